@@ -20,6 +20,17 @@ def guarded_check(solver, timeout_ms, *assumptions):
 from .values import SV, Loc, Unsupported, simp
 
 
+def _retry_canceled(op):
+    """a watchdog interrupt that fires just after a check has returned makes the *next* API call fail with 'canceled':
+    that call is simply repeated"""
+    for attempt in range(3):
+        try:
+            return op()
+        except z3.Z3Exception as ex:
+            if b'canceled' not in (ex.value if isinstance(ex.value, bytes) else str(ex.value).encode()) or attempt == 2:
+                raise
+
+
 class PathEnd(Exception):
     """the current path ends here (cut by an invariant, or infeasible)"""
 
@@ -145,7 +156,7 @@ class State:
 
     def feasible(self, cond):
         t = time.time()
-        self.solver.push()
+        _retry_canceled(self.solver.push)
         self.solver.add(cond)
         r = guarded_check(self.solver, self.x.feas_timeout_ms)
         self.solver.pop()
@@ -210,7 +221,7 @@ class State:
         if key in cache:
             return cache[key]
         res = None
-        self.solver.push()
+        _retry_canceled(self.solver.push)
         try:
             if guarded_check(self.solver, self.x.feas_timeout_ms) == z3.sat:
                 v = self.solver.model().eval(e, model_completion=True)
